@@ -11,6 +11,10 @@
 // float costs also the real-valued cost (long double) within the rigorous fixed-point rounding
 // bound of the real-valued brute-force optimum; toAssignment = a sink receiving most of the source.
 // Floats are never printed: costs cross to the driver as the bit pattern of (double)cost.
+// Float inputs: the Lean model executes costsFromIntegers over exact rationals with explicit binary64 rounding; the scaled
+// integer costs are compared entry by entry on dyadic, non-dyadic (full 24-bit mantissas, decimals, thirds), subnormal,
+// all-below-1e-8f, near-FLT_MAX, full-exponent-range (spreads beyond 1e30) and negative inputs; `fdomain ok|outside`
+// is the domain predicate of costsFromFloats_bound evaluated independently here.
 #include <algorithm>
 #include <climits>
 #include <memory>
@@ -155,6 +159,38 @@ static bool bruteOptimum(std::vector<ll> caps, const std::vector<ll> &dems, cons
   return b.go(0, caps, res);
 }
 
+// floatCostsOk of Model/TranspFloat.lean: every cost <= FLT_MAX (finite) and >= -nbSinks * maxVal
+static bool floatDomain(const std::vector<std::vector<float>> &fc) {
+  long double maxVal = 1.0e-8f;
+  for (auto &r : fc) for (float f : r) { if (!std::isfinite(f)) return false; maxVal = std::max(maxVal, (long double)f); }
+  long double lo = -(long double)fc.size() * maxVal;
+  for (auto &r : fc) for (float f : r) if ((long double)f < lo) return false;
+  return true;
+}
+
+static void classifyFloats(const std::vector<std::vector<float>> &fc, vh::Out &out) {
+  bool den = false, zero = false, neg = false, nondy = false, big = false, allTiny = true;
+  float mx = 0, mnpos = 0;
+  for (auto &r : fc) for (float f : r) {
+    if (f == 0.0f) zero = true;
+    if (f != 0.0f && std::fabs(f) < 1.17549435e-38f) den = true;
+    if (f < 0.0f) neg = true;
+    uint32_t b; memcpy(&b, &f, 4);
+    if ((b & 0xFFFu) != 0) nondy = true;          // more than 12 significant fraction bits used
+    if (std::fabs(f) > 1e30f) big = true;
+    if (f > 1.0e-8f) allTiny = false;
+    if (f > 0.0f) { mx = std::max(mx, f); mnpos = mnpos == 0 ? f : std::min(mnpos, f); }
+  }
+  if (den) out.count("float_has_denormal");
+  if (zero) out.count("float_has_zero");
+  if (neg) out.count("float_has_negative");
+  if (nondy) out.count("float_has_full_mantissa");
+  if (big) out.count("float_has_magnitude_gt_1e30");
+  if (allTiny) out.count("float_all_le_1e-8_maxVal_is_eps");
+  if (mnpos > 0 && (long double)mx / mnpos >= 1e12L) out.count("float_spread_ge_1e12");
+  if (mnpos > 0 && (long double)mx / mnpos >= 1e30L) out.count("float_spread_ge_1e30");
+}
+
 struct Runner {
   vh::Out &out;
   long long bruteBudget;
@@ -193,6 +229,29 @@ struct Runner {
     }
     TransportationProblem &pb = *pbp;
     out.impl << "costs " << matStrI(pb.costs()) << "\n";
+    if (in.isFloat) {
+      // the domain of the Lean theorem costsFromFloats_bound (floatCostsOk), evaluated independently and exactly:
+      // n * maxVal has at most 24 + 5 significant bits (n <= 16), exact in long double
+      bool dom = floatDomain(in.fcosts);
+      out.impl << (dom ? "fdomain ok\n" : "fdomain outside\n");
+      out.count(dom ? "float_domain_ok" : "float_domain_outside");
+      classifyFloats(in.fcosts, out);
+      // oracle on the scaled costs (independent of the solver): |cost| <= 2^29 on the domain, and every stored cost is
+      // within 1/2 + 2^-24 of cost * factor for the ideal factor up to its relative error 3 * 2^-53 (long double)
+      if (dom) {
+        long double maxVal = 1.0e-8f;
+        for (auto &r : in.fcosts) for (float f : r) maxVal = std::max(maxVal, (long double)f);
+        long double f = 2147483647.0L / maxVal / 4.0L / (long double)in.fcosts.size();
+        for (size_t i = 0; i < in.fcosts.size(); ++i)
+          for (size_t j = 0; j < in.fcosts[i].size(); ++j) {
+            long long c = pb.costs()[i][j];
+            if (c > 536870912LL || c < -536870912LL) out.fail(id, "scaled float cost beyond 2^29 on the domain", input);
+            long double ideal = (long double)in.fcosts[i][j] * f;
+            if (fabsl((long double)c - ideal) > 0.5L + 1.0L / 16777216.0L + fabsl(ideal) * 1e-15L)
+              out.fail(id, "scaled float cost further than 1/2 + 2^-24 from cost * factor", input);
+          }
+      }
+    }
     const int n = pb.nbSinks(), m = pb.nbSources();
     if (in.inc) {
       ll before = pb.totalCapacity();
@@ -380,10 +439,68 @@ static float randFloatCost(vh::Rng &g, int mode) {
       double e = (double)g.range(-20, 20);
       return (float)(std::ldexp(1.0 + (double)g.range(0, 1023) / 1024.0, (int)e));
     }
-    default: {                                             // distances
+    case 5: {                                              // distances
       float dx = (float)g.range(-500, 500), dy = (float)g.range(-500, 500);
       return std::sqrt(dx * dx + dy * dy);
     }
+    case 7: {                                              // subnormals and the smallest normals (and zero)
+      uint32_t b = (uint32_t)g.range(0, (1 << 24) - 1);    // exponent field 0 or 1
+      return Inst::ffrom(b);
+    }
+    case 8: {                                              // any finite non-negative float: full exponent range, full mantissa
+      uint32_t b = ((uint32_t)g.range(0, 254) << 23) | (uint32_t)g.range(0, (1 << 23) - 1);
+      return Inst::ffrom(b);
+    }
+    case 9: {                                              // non-dyadic decimals and thirds
+      int k = g.range(0, 3);
+      if (k == 0) return 0.1f * (float)g.range(0, 1000);
+      if (k == 1) return (float)g.range(0, 100000) / 3.0f;
+      if (k == 2) return (float)g.range(1, 1000) * 1e-3f;
+      return (float)g.range(0, 1000000) / 7.0f * 1e-4f;
+    }
+    case 10: {                                             // everything at most 1e-8f: maxVal stays the constant
+      int k = g.range(0, 3);
+      if (k == 0) return 0.0f;
+      if (k == 1) return Inst::ffrom((uint32_t)g.range(0, (1 << 23) - 1));   // subnormal
+      return Inst::ffrom((uint32_t)g.range(0, 0x322BCC77));                   // any float in [0, 1e-8f]
+    }
+    default: {                                             // near FLT_MAX
+      uint32_t b = ((uint32_t)g.range(250, 254) << 23) | (uint32_t)g.range(0, (1 << 23) - 1);
+      return g.chance(1, 4) ? 3.40282347e+38f : Inst::ffrom(b);
+    }
+  }
+}
+
+// negative costs: `maxVal` ignores them.  inDomain: every negative entry >= -n * maxVal (exactly; the domain of
+// costsFromFloats_bound); otherwise one entry in [-1.3 n maxVal, -n maxVal) (outside the domain, the stored costs still
+// satisfy 3|c| < INT_MAX, so solve() is still covered by ssp_optimal)
+static void addNegatives(vh::Rng &g, std::vector<std::vector<float>> &fc, bool inDomain) {
+  const int n = fc.size(), m = fc[0].size();
+  long double maxVal = 1.0e-8f;
+  for (auto &r : fc) for (float f : r) maxVal = std::max(maxVal, (long double)f);
+  int imax = -1, jmax = -1;
+  for (int i = 0; i < n && imax < 0; ++i) for (int j = 0; j < m; ++j) if ((long double)fc[i][j] == maxVal) { imax = i; jmax = j; break; }
+  long double lim = (long double)n * maxVal;
+  if (lim > 3.0e38L) lim = 3.0e38L;
+  auto below = [&](long double x) {   // largest-magnitude float v with -x <= v <= 0
+    float v = -(float)x;
+    while ((long double)v < -x) v = std::nextafterf(v, 0.0f);
+    return v;
+  };
+  for (int i = 0; i < n; ++i)
+    for (int j = 0; j < m; ++j) {
+      if (i == imax && j == jmax) continue;   // keep maxVal
+      if (!g.chance(1, 3)) continue;
+      int k = g.range(0, 3);
+      long double mag = k == 0 ? lim : (k == 1 ? maxVal : lim * (long double)g.range(0, 1 << 20) / (long double)(1 << 20));
+      fc[i][j] = below(mag);
+    }
+  if (!inDomain && lim < 2.0e38L) {
+    int i = g.range(0, n - 1), j = g.range(0, m - 1);
+    if (i == imax && j == jmax) { if (m > 1) j = (j + 1) % m; else if (n > 1) i = (i + 1) % n; else return; }
+    float v = -(float)(lim * (1.0L + (long double)g.range(1, 300) / 1000.0L));
+    if ((long double)v >= -lim) v = std::nextafterf(v, -INFINITY);
+    fc[i][j] = v;
   }
 }
 
@@ -429,10 +546,21 @@ static Inst randomInst(vh::Rng &g, bool tiny, bool huge = false) {
   // costs
   in.isFloat = g.chance(2, 5);
   if (in.isFloat) {
-    int mode = g.range(0, 6);
+    // 0..5 single family, 6 mixed 1..5, 7 subnormal, 8 any finite float, 9 non-dyadic, 10 all <= 1e-8f, 11 near FLT_MAX,
+    // 12 mixed over all families (large spreads next to zeros and subnormals); then with chance 1/4 negative entries
+    int mode = g.range(0, 12);
     in.fcosts.assign(n, std::vector<float>(m));
-    for (int i = 0; i < n; ++i) for (int j = 0; j < m; ++j) in.fcosts[i][j] = randFloatCost(g, mode == 6 ? (int)g.range(1, 5) : mode);
+    for (int i = 0; i < n; ++i) for (int j = 0; j < m; ++j) {
+      int fm = mode == 6 ? (int)g.range(1, 5) : (mode == 12 ? (int)(g.chance(1, 5) ? 0 : g.range(1, 11)) : mode);
+      if (fm == 6) fm = 8;
+      in.fcosts[i][j] = randFloatCost(g, fm);
+    }
     in.tag += "_f" + std::to_string(mode);
+    if (g.chance(1, 4)) {
+      bool inDom = !g.chance(1, 6);
+      addNegatives(g, in.fcosts, inDom);
+      in.tag += inDom ? "_neg" : "_negout";
+    }
   } else {
     int mode = g.range(0, 6);
     ll C = (ll)INT_MAX / (8 * n) - 1;  // |cost| <= C keeps every path cost inside int
